@@ -1,0 +1,13 @@
+//go:build verif
+
+package graphql
+
+// VerifHook, when set, is called at the yield points below (verification
+// harness under /verif only; compiled with -tags verif).
+var VerifHook func(point string)
+
+func verifYield(point string) {
+	if h := VerifHook; h != nil {
+		h(point)
+	}
+}
